@@ -450,7 +450,12 @@ mod exec {
         /// use `detached()`.
         pub fn capture(self) -> PopenResult<CaptureData> {
             let (mut comm, mut p) = self.setup_communicate()?;
-            let (maybe_out, maybe_err) = comm.read()?;
+            let result = comm.read();
+            // Close the pipes before `p` is waited for (explicitly below, or
+            // by its Drop when read() failed): a child still writing output
+            // would otherwise block forever, and the wait with it.
+            drop(comm);
+            let (maybe_out, maybe_err) = result?;
             Ok(CaptureData {
                 stdout: maybe_out.unwrap_or_else(Vec::new),
                 stderr: maybe_err.unwrap_or_else(Vec::new),
@@ -1081,7 +1086,10 @@ mod pipeline {
         /// close.  If this is undesirable, use `detached()`.
         pub fn capture(self) -> PopenResult<CaptureData> {
             let (mut comm, mut v) = self.setup_communicate()?;
-            let (out, err) = comm.read()?;
+            let result = comm.read();
+            // see Exec::capture()
+            drop(comm);
+            let (out, err) = result?;
             let out = out.unwrap_or_else(Vec::new);
             let err = err.unwrap();
 
